@@ -35,7 +35,7 @@ def check(ctx):
     for e in pv.effects():
         if e["kind"] == "call" and e["callee"] == SORT_BY:
             sorts.append(e)
-        elif e["kind"] == "call" and e["callee"] in ("core::ops::DerefMut::deref_mut",) and e["place"] == params_place:
+        elif e["kind"] == "call" and e["callee"] in ("core::ops::deref::DerefMut::deref_mut",) and e["place"] == params_place:
             continue
         else:
             others.append(e)
@@ -124,7 +124,7 @@ def _sorted_place(t):
     """&mut *deref_mut(&mut X) -> X"""
     while t[0] in ("deref", "ref"):
         t = t[1]
-    if is_call(t, "core::ops::DerefMut::deref_mut"):
+    if is_call(t, "core::ops::deref::DerefMut::deref_mut"):
         a = t[2][0]
         while a[0] in ("ref",):
             a = a[1]
